@@ -226,7 +226,7 @@ SPECS['C09'] = dict(
 
 SPECS['C14'] = dict(
     title='Array value semantics',
-    jobs=model_jobs('h_array', 'C14', (120000, 3000000), vg_cases=4000),
+    jobs=model_jobs('h_array', 'C14', (120000, 8000000), vg_cases=4000),
     require={'any': {'histories': 5000, 'nontrivialCases': 2000, 'zeroLength': 500, 'trackedDtors': 50000}},
     evidence=lambda agg, samples, distinct, tier: cov(
         agg.get('histories', 0), distinct,
@@ -258,7 +258,7 @@ def subject_evidence(rule):
 
 SPECS['C05'] = dict(
     title='Subject delivers to exactly the live, unmuted observers, in order',
-    jobs=model_jobs('h_subject', 'C05', (64000, 2000000), variants_thorough=('asan', 'asan-O0')),
+    jobs=model_jobs('h_subject', 'C05', (64000, 6000000), variants_thorough=('asan', 'asan-O0')),
     require={'any': {'histories': 5000, 'notifies': 50000, 'staleRejected': 5000, 'lazyRemovals': 5000, 'handleMoves': 5000}},
     evidence=subject_evidence('case = seeded history (1-150 steps, up to 40 observers, a second Subject as source of foreign handles with equal numeric ids) of subscribe '
                               '(callable, self-view callable, unique_ptr, raw pointer), unsubscribe via handle / via subject, mute, unmute, invalidate, handle move-construct/-assign, '
@@ -272,7 +272,7 @@ SPECS['C05'] = dict(
 
 SPECS['C10'] = dict(
     title='Subject tolerates callbacks that change it during notify',
-    jobs=model_jobs('h_subject', 'C10', (64000, 2000000), variants_thorough=('asan', 'asan-O0')),
+    jobs=model_jobs('h_subject', 'C10', (64000, 6000000), variants_thorough=('asan', 'asan-O0')),
     require={'any': {'histories': 5000, 'inRoundActions': 50000, 'selfUnsub': 5000, 'unsubOther': 3000, 'nestedNotifies': 5000}},
     evidence=subject_evidence('C05 histories whose callbacks run seeded scripts while being notified: subscribe a new observer, unsubscribe self / an already-called / a not-yet-called observer '
                               '(via handle or subject), mute, unmute, invalidate any target, call notify again (nesting <= 3). The script acts on the real Subject and on the model together; '
@@ -331,7 +331,7 @@ SPECS['C13'] = dict(
 
 SPECS['C16'] = dict(
     title='Observable notifies exactly on change, with the new value',
-    jobs=model_jobs('h_observable', 'C16', (160000, 4000000), variants_thorough=('asan', 'asan-O0')),
+    jobs=model_jobs('h_observable', 'C16', (160000, 12000000), variants_thorough=('asan', 'asan-O0')),
     require={'any': {'histories': 5000, 'changingOps': 100000, 'nonChangingOps': 100000, 'eqEqualButDifferentAssignments': 1000, 'subscriberCalls': 50000}},
     evidence=lambda agg, samples, distinct, tier: cov(
         agg.get('histories', 0), distinct,
@@ -355,7 +355,7 @@ def locale_jobs(tier, seed):
     q = tier == 'quick'
     jobs = []
     variants = ('asan',) if q else ('asan', 'asan-O0', 'asan-clang')
-    hostile = 96000 if q else 6000000
+    hostile = 96000 if q else 16000000
     for vi, variant in enumerate(variants):
         for frm, cnt in split(LOCALE_FORMS, NCPU):
             jobs.append(Job('h_locale', variant, pseed(seed, 'C19', vi), frm, cnt, label='exhaustive'))
@@ -409,7 +409,7 @@ def fs_jobs(engine, prop, cases, big=None):
 
 SPECS['C17'] = dict(
     title='File round-trips bytes exactly',
-    jobs=fs_jobs('h_file', 'C17', (12000, 300000), big=(64, ['maxlen=8388608'])),
+    jobs=fs_jobs('h_file', 'C17', (12000, 1000000), big=(64, ['maxlen=8388608'])),
     require={'any': {'files': 2000, 'filesWithNul': 500, 'filesWith0xFF': 500, 'filesWithCRLF': 200, 'emptyFiles': 100, 'appendSessions': 1000, 'sizeCalls': 3000, 'seeks': 3000, 'errorProbes': 500}},
     evidence=lambda agg, samples, distinct, tier: cov(
         agg.get('files', 0), distinct,
@@ -427,7 +427,7 @@ SPECS['C17'] = dict(
 
 SPECS['C18'] = dict(
     title='Path agrees with the filesystem',
-    jobs=fs_jobs('h_path', 'C18', (4000, 80000), big=(40, ['maxfile=4000000'])),
+    jobs=fs_jobs('h_path', 'C18', (4000, 300000), big=(40, ['maxfile=4000000'])),
     require={'any': {'trees': 500, 'nodes': 5000, 'emptyDirectories': 200, 'relativeQueries': 3000, 'trailingSeparatorQueries': 500, 'missingPathProbes': 1000,
                      'identitiesChecked': 50000, 'visitors': 500, 'nestedVisitors': 200, 'deepChains': 100, 'maxCwdBytes': 600}},
     evidence=lambda agg, samples, distinct, tier: cov(
@@ -451,7 +451,7 @@ SPECS['C18'] = dict(
 def thread_jobs(tier, seed):
     q = tier == 'quick'
     jobs = []
-    plan = (('mon', 3200), ('asan', 1600)) if q else (('mon', 60000), ('asan', 24000), ('mon-ndebug', 20000), ('asan-O0', 8000))
+    plan = (('mon', 3200), ('asan', 1600)) if q else (('mon', 240000), ('asan', 80000), ('mon-ndebug', 80000), ('asan-O0', 24000))
     for vi, (variant, n) in enumerate(plan):
         for frm, cnt in split(n, 8):
             jobs.append(Job('h_thread', variant, pseed(seed, 'C20', vi), frm, cnt, label=variant))
@@ -505,7 +505,7 @@ def pool_evidence(rule):
 
 SPECS['C07'] = dict(
     title='ThreadPool: at most once, destroyed exactly once',
-    jobs=pool_jobs('C07', (('mon', 4800), ('asan', 1200)), (('mon', 120000), ('asan', 30000), ('mon-ndebug', 30000))),
+    jobs=pool_jobs('C07', (('mon', 4800), ('asan', 1200)), (('mon', 400000), ('asan', 80000), ('mon-ndebug', 100000))),
     require={'any': {'programs': 1500, 'tasksRan': 10000, 'tasksDropped': 5000, 'clearsWithRunningTask': 100, 'stopsWithRunningTask': 1000, 'singleWorkerPrograms': 300}},
     evidence=pool_evidence('case = seeded owner program (4-40 operations over start(Runnable), start(closure [, lvalue]), clear, stop, restart, waitDrain, getters, yield; stop storms) on a fresh pool with maximum '
                            '1/2/3/4/8 non-expiring workers. Tasks log run entry/exit, worker tid and destruction into records that outlive them; rules: runs <= 1, destroyed exactly once and after run() returned, '
@@ -517,7 +517,7 @@ SPECS['C07'] = dict(
 
 SPECS['C08'] = dict(
     title='ThreadPool::stop() terminates, pool quiescent and restartable',
-    jobs=pool_jobs('C08', (('mon', 6400), ('asan', 1200)), (('mon', 300000), ('asan', 30000), ('mon-ndebug', 60000))),
+    jobs=pool_jobs('C08', (('mon', 6400), ('asan', 1200)), (('mon', 800000), ('asan', 80000), ('mon-ndebug', 200000))),
     require={'any': {'stops': 15000, 'stopsWithWorkerInPreBlockWindow': 1000, 'restarts': 8000, 'stopsWithRunningTask': 1500}},
     evidence=pool_evidence('C07 programs with stop storms (start k tasks; stop immediately / after the first task started / after drain) and the delay at cond_wait entry enabled (worker has evaluated its predicate and '
                            'holds the queue mutex but has not blocked). Deciding monitors: quiescence oracle (owner in pthread_join, workers in cond_wait, nothing runnable = stop() can never return); after every '
@@ -567,7 +567,8 @@ SPECS['C11'] = dict(
     assumptions=['mute/unmute and in-callback invalidation are excluded: the quantifier does not list them and they bypass the lock by design', 'callbacks do not call back into the router',
                  'large histories: every rule is a necessary condition of linearizability (such a check can miss non-linearizable histories that satisfy all four rules); small histories: complete search, the sequential SubjectRouter is the specification'],
     manifest=dict(engine='h_crouter', text='Offline checker over stamped call/return/callback events of real multi-threaded histories: four necessary conditions of linearizability decided exactly per notify '
-                  '(many tiny interval problems instead of one NP-hard search), in monitored and ASan builds.',
+                  '(many tiny interval problems instead of one NP-hard search) for large histories, and a complete linearizability search against the sequential SubjectRouter for tens of thousands of small '
+                  'histories, in monitored and ASan builds.',
                   note='Schedules sampled with delays inside the router\'s lock and CPU pinning; trusted: the stamp counter and the client-boundary recording.',
                   technique='runtime monitoring: offline history checker (interval linearizability conditions) over stamped events'))
 
@@ -577,7 +578,7 @@ SPECS['C11'] = dict(
 def race_jobs(tier, seed):
     q = tier == 'quick'
     jobs = []
-    reps = 8 if q else 40
+    reps = 8 if q else 150
     ops = 'ops=%d' % (60000 if q else 120000)
     k = 0
     for variant in ('tsan',):   # clang 14 cannot compile Subject.h (parenthesised aggregate initialisation, P0960)
